@@ -171,7 +171,10 @@ fn gen_lib(c: &mut Chooser) -> Case {
     let focus = SShape { layer: LP[lp].0, purpose: LP[lp].1, geom: variants[v].1.clone(), net: NETS[net].map(|s| s.to_string()) };
     // options 5..=20: a named 2x2 neighbour on the same layer and purpose, one unit outside the focus shape's (flush)
     // bounding box on each of its four sides, level with the shape's first / last listed point, listed before / after
-    let second = c.cost(21, "second-shape");
+    // options 21..=24: the same on each side, but the neighbour is one unit thick and starts right after the focus
+    // shape's true extent (a path of odd width w reaches w/2 to each side, so the neighbour - and its label, which sits
+    // on one of its two edges - starts (w+1)/2 from the centre line: next to the path, not on it)
+    let second = c.cost(25, "second-shape");
     tags.push(["second:none", "second:unnamed-same-layer-purpose", "second:named-same-layer-other-purpose", "second:named-other-layer-same-place", "second:named-listed-first", "second:neighbour-one-unit-away"][second.min(5)]);
     let far = SGeom::Rect((300, 300), (340, 330));
     let leaf = cells[n - 1].layout.as_mut().unwrap();
@@ -193,11 +196,19 @@ fn gen_lib(c: &mut Chooser) -> Case {
             leaf.shapes.push(focus);
         }
         k if k >= 5 => {
-            let (side, anchor_last, first) = ((k - 5) % 4, ((k - 5) / 4) % 2 == 1, (k - 5) / 8 == 1);
+            let thin = k >= 21;
+            let mut focus = focus;
+            if thin {
+                // ... and a path gets an odd width (w4 -> w5)
+                if let SGeom::Path(_, w) = &mut focus.geom {
+                    *w |= 1;
+                }
+            }
+            let (side, anchor_last, first) = if thin { (k - 21, false, false) } else { ((k - 5) % 4, ((k - 5) / 4) % 2 == 1, (k - 5) / 8 == 1) };
             let (pts, half): (Vec<(i64, i64)>, i64) = match &focus.geom {
                 SGeom::Rect(a, b) => (vec![*a, *b], 0),
                 SGeom::Poly(v) => (v.clone(), 0),
-                SGeom::Path(v, w) => (v.clone(), (*w + 1) / 2),
+                SGeom::Path(v, w) => (v.clone(), if thin { *w / 2 } else { (*w + 1) / 2 }),
             };
             // flush bounding box: a path is widened sideways only (end-points are not extended)
             let (mut x0, mut y0, mut x1, mut y1) = (i64::MAX, i64::MAX, i64::MIN, i64::MIN);
@@ -214,6 +225,10 @@ fn gen_lib(c: &mut Chooser) -> Case {
             }
             let anchor = if anchor_last { *pts.last().unwrap() } else { pts[0] };
             let nb = match side {
+                0 if thin => SGeom::Rect((x0 - 2, anchor.1 - 1), (x0 - 1, anchor.1 + 1)),
+                1 if thin => SGeom::Rect((x1 + 1, anchor.1 - 1), (x1 + 2, anchor.1 + 1)),
+                2 if thin => SGeom::Rect((anchor.0 - 1, y0 - 2), (anchor.0 + 1, y0 - 1)),
+                _ if thin => SGeom::Rect((anchor.0 - 1, y1 + 1), (anchor.0 + 1, y1 + 2)),
                 0 => SGeom::Rect((x0 - 3, anchor.1 - 1), (x0 - 1, anchor.1 + 1)),
                 1 => SGeom::Rect((x1 + 1, anchor.1 - 1), (x1 + 3, anchor.1 + 1)),
                 2 => SGeom::Rect((anchor.0 - 1, y0 - 3), (anchor.0 + 1, y0 - 1)),
@@ -477,7 +492,7 @@ impl CaseDriver for C07Lib {
     fn describe(&self, tier: Tier) -> Describe {
         Describe {
             rule: format!(
-                "raw libraries of 1..3 cells (chain c0 -> c1 -> c2) listed in every order; every instance in all 8 orientations (free); the last cell holds a focus shape: family {FAMILIES:?} (free) x (layer, purpose) in 2 layers x 2 purposes (free) x net absent / lower-case / Mixed-Case (free); costed (deviation bound {}): shape variant within the family (both corner orders and mixed corners of rectangles, start vertex and direction of polygons, 1..3 segment paths, widths 2/3/4), units Nano/Micro/Angstrom/Pico, instance offsets {LOCS:?}, angle None vs Some(0), a second placement, the top also placing the leaf, named non-leaf shape, a second shape (unnamed same layer+purpose / named same layer other purpose / named other layer same place / named listed first / a named 2x2 neighbour one unit outside the shape's flush bounding box on each side, level with its first or last point, listed before or after), unit-wide rectangles at negative coordinates, width-1 / backwards-drawn / ring / out-and-back paths (variants of the families), a blank cell (unreferenced / instantiated), two cells whose names differ only in letter case. Non-trivial = has an instance or a net.",
+                "raw libraries of 1..3 cells (chain c0 -> c1 -> c2) listed in every order; every instance in all 8 orientations (free); the last cell holds a focus shape: family {FAMILIES:?} (free) x (layer, purpose) in 2 layers x 2 purposes (free) x net absent / lower-case / Mixed-Case (free); costed (deviation bound {}): shape variant within the family (both corner orders and mixed corners of rectangles, start vertex and direction of polygons, 1..3 segment paths, widths 2/3/4), units Nano/Micro/Angstrom/Pico, instance offsets {LOCS:?}, angle None vs Some(0), a second placement, the top also placing the leaf, named non-leaf shape, a second shape (unnamed same layer+purpose / named same layer other purpose / named other layer same place / named listed first / a named 2x2 neighbour one unit outside the shape's flush bounding box on each side, level with its first or last point, listed before or after; or a neighbour one unit thick starting right after the true extent of the shape, a path then given an odd width), unit-wide rectangles at negative coordinates, width-1 / backwards-drawn / ring / out-and-back paths (variants of the families), a blank cell (unreferenced / instantiated), two cells whose names differ only in letter case. Non-trivial = has an instance or a net.",
                 self.bound(tier)
             ),
             assumptions: assumptions(),
